@@ -335,6 +335,72 @@ func rcWillWindow(seed int64, tier string) (string, uint64) {
 	return "will-window", atomic.LoadUint64(&ops)
 }
 
+// rcSeiWindow: the session-expiry housekeeping runs continuously with a far-future clock while
+// MQTT 5 clients connect with a Session Expiry Interval above the (lowered) server maximum (the
+// handler caps it in SendConnack, after Clients.Add) and disconnect with a Session Expiry Interval
+// property (the handler rewrites it in processDisconnect).  The event loop may read those fields
+// only after it has seen the client stopped.
+func rcSeiWindow(seed int64, tier string) (string, uint64) {
+	caps := mqtt.NewDefaultServerCapabilities()
+	caps.MaximumSessionExpiryInterval = 5
+	s := mqtt.New(&mqtt.Options{InlineClient: true, Logger: quietLogger(), Capabilities: caps})
+	_ = s.AddHook(new(auth.AllowHook), nil)
+	var ops uint64
+	var wg, hk, cw sync.WaitGroup
+	stop := make(chan struct{})
+	hk.Add(1)
+	go func() {
+		defer hk.Done()
+		for {
+			select {
+			case <-stop:
+				return
+			default:
+			}
+			s.VerifTick("clients", time.Now().Unix()+1000000)
+			atomic.AddUint64(&ops, 1)
+		}
+	}()
+	workers, rounds := 4, 80
+	if tier == "thorough" {
+		workers, rounds = 6, 800
+	}
+	for w := 0; w < workers; w++ {
+		cw.Add(1)
+		sub := rand.New(rand.NewSource(seed*613 + int64(w)))
+		go func(w int) {
+			defer cw.Done()
+			for r := 0; r < rounds; r++ {
+				bEnd, cEnd := memPipe()
+				wg.Add(1)
+				go func() {
+					defer wg.Done()
+					_ = s.EstablishConnection("t1", bEnd)
+					bEnd.Close()
+				}()
+				c := &rcClient{conn: cEnd, version: 5, nextID: 1, ops: &ops}
+				c.send(packets.Packet{FixedHeader: packets.FixedHeader{Type: packets.Connect},
+					Connect:    packets.ConnectParams{ProtocolName: []byte("MQTT"), ClientIdentifier: fmt.Sprintf("s%d-%d", w, sub.Intn(3)), Keepalive: 30},
+					Properties: packets.Properties{SessionExpiryInterval: 100, SessionExpiryIntervalFlag: true}})
+				done := make(chan struct{})
+				go c.reader(done)
+				c.send(packets.Packet{FixedHeader: packets.FixedHeader{Type: packets.Pingreq}})
+				time.Sleep(time.Duration(sub.Intn(200)) * time.Microsecond)
+				c.send(packets.Packet{FixedHeader: packets.FixedHeader{Type: packets.Disconnect},
+					Properties: packets.Properties{SessionExpiryInterval: uint32(1 + sub.Intn(4)), SessionExpiryIntervalFlag: true}})
+				time.Sleep(time.Duration(sub.Intn(200)) * time.Microsecond)
+				cEnd.Close()
+				<-done
+			}
+		}(w)
+	}
+	cw.Wait()
+	close(stop)
+	hk.Wait()
+	waitTimeout(&wg, 5*time.Second)
+	return "sei-window", atomic.LoadUint64(&ops)
+}
+
 func rcScenario(seed int64, tier string) (string, uint64) {
 	opts := &mqtt.Options{InlineClient: true, Logger: quietLogger()}
 	s := mqtt.New(opts)
@@ -523,6 +589,8 @@ func engRace(seed int64, tier string, args []string, out *sx.Out) {
 		name, n := "", uint64(0)
 		if len(args) > 1 && args[1] == "will" {
 			name, n = rcWillWindow(seed, tier)
+		} else if len(args) > 1 && args[1] == "sei" {
+			name, n = rcSeiWindow(seed, tier)
 		} else {
 			name, n = rcScenario(seed, tier)
 		}
@@ -543,10 +611,7 @@ func engRace(seed int64, tier string, args []string, out *sx.Out) {
 	for r := 0; r < runs; r++ {
 		sub := filepath.Join(dir, fmt.Sprintf("r%d", r))
 		os.MkdirAll(sub, 0o755)
-		kind := "mix"
-		if r%2 == 1 {
-			kind = "will"
-		}
+		kind := []string{"mix", "will", "sei", "mix"}[r%4]
 		cmd := exec.Command(os.Args[0], "race", "-seed", fmt.Sprint(seed+int64(r)*7919), "-tier", tier, "child", kind)
 		cmd.Env = append(os.Environ(), "GORACE=log_path="+filepath.Join(sub, "race")+" halt_on_error=0 history_size=3")
 		var so, se bytes.Buffer
